@@ -327,6 +327,7 @@ class DeleteMedia(DeleteModelBase):
             "title": current_media_file.name,
             "stream": current_stream.title,
         }
+        current_media_file.clear_timing_reference()
         models.db.session.delete(current_media_file)
         models.db.session.commit()
         return result
